@@ -19,6 +19,10 @@ from core import Corr, Fail, chunked_list, BuildError, REPO, VERIF
 from props import waterlib, c15_projects
 
 PROP_FILES = ["Prop_C15"]
+# thorough tier: coqchk re-checks Prop_C15 and everything below it; the Coq-Interval / Flocq / Coquelicot libraries the two
+# interval proofs pull in take > 50 min there (timeout), with them admitted (they are opam-installed libraries, listed in
+# TRUSTED) the re-check of all of Hermes.* + the standard library takes ~4 min.  Honoured by core.py as `-admit <module>`.
+COQCHK_ADMIT = ["Interval.Tactic"]
 RULE = ("PTF1-4: random points of the domain (clay, silt, sand >= 5, sand <= 85, Corg 0-6; half of them integers) plus points "
         "outside; calcWRed: percent pairs as the three call sites hand them over; Hydro: every texture of both tables x "
         "density 1-5 x 7 Corg classes x 6 groundwater classes, values at / next to every threshold, and a sweep of Corg 0-7 % "
